@@ -242,3 +242,46 @@ Definition model_translate (rows : list (list Z)) : result (list (list Z)) :=
         let aas := map (fun t => nthZ amino_acids (codon_hash t)) tuples in
         Ok (split_lens aas (map (fun l => l / 3) lens))
   end.
+
+(* ======================================================================================= *)
+(* Generalised forms of the definitions above, with the tables and small rules of the source *)
+(* as parameters.  Bridge/C14.v instantiates them with what translate/gen_c14.py regenerates  *)
+(* from /repo (Gen/C14.v) and proves the instances equal to the definitions the theorems are *)
+(* about.  Nothing above depends on this part.                                               *)
+(* ======================================================================================= *)
+Definition ascii_values_gen (size fill : Z) (assignments : list (Z * Z)) : list Z :=
+  set_many (repeat fill (Z.to_nat size)) assignments.
+(* a where site: (code point the strand column is compared with, the operand taken where the test holds is
+   the reverse complement) *)
+Definition where_site (minus : bool) : Z * bool := if minus then (45, true) else (43, false).
+Definition model_stranded_site (keys : list (Z * Z))
+           (wh : list bool -> list (list Z) -> list (list Z) -> result (list (list Z)))
+           (site : Z * bool) (lo hi : Z -> Z -> Z) (ez : Z) (ref : list Z) (ivs : list (Z * Z * Z))
+  : result (list (list Z)) :=
+  let e := enc_of ez in
+  match encode e ref with
+  | Err c => Err c
+  | Ok codes =>
+      let rel := map (fun iv : Z * Z * Z => let '(a, b, _) := iv in slice (lo a b) (hi a b) codes) ivs in
+      match revcomp_codes keys e (concat rel) (map len rel) with
+      | Err c => Err c
+      | Ok flat =>
+          let rc := split_lens flat (map len rel) in
+          let mask := map (fun iv => iv_strand iv =? fst site) ivs in
+          let r := if snd site then wh mask rc rel else wh mask rel rc in
+          match r with Err c => Err c | Ok rows => Ok (map (decode e) rows) end
+      end
+  end.
+Definition model_translate_gen (w : Z) (alphabet amino : list Z) (weight : Z -> Z -> Z) (reversed : bool)
+           (check : Z -> Z -> bool) (outlen : Z -> Z -> Z) (rows : list (list Z)) : result (list (list Z)) :=
+  let lens := map len rows in
+  match alpha_encode alphabet (concat rows) with
+  | Err c => Err c
+  | Ok codes =>
+      if negb (forallb (fun l => check l w) lens) then Err 2
+      else
+        let tuples := chunks_of (Z.to_nat w) codes in
+        let conv := map (weight (len alphabet)) (arange w) in
+        let aas := map (fun t => nthZ amino (dot (if reversed then rev t else t) conv)) tuples in
+        Ok (split_lens aas (map (fun l => outlen l w) lens))
+  end.
